@@ -4,9 +4,9 @@ from harness.props import sysbase as B
 
 ID = "C09"
 THEOREM_FILE = "Properties/C09.v"
-COQ_PROP_OK = "(fun c => C09_ok (snd c) && C09_complete_ok (snd c))"
+COQ_PROP_OK = "(fun c => C09_ok (snd c) && C09_complete_ok (snd c) && C04_ok (snd c))"
 RULE = ("seeded whole-system runs with random command histories (pause/resume/save/shutdown at any position, shutdown while paused) and injected failures in setup, the k-th step, the k-th training run, "
-        "a pause or a resume hook, plus control-side failures; random and PCT schedules. The per-component event log (callback, thread) is checked against the protocol automaton. "
+        "a pause or a resume hook, plus control-side failures; random and PCT schedules. The per-component event log (callback, thread) is checked against the protocol automaton, and state saves against the quiescence monitor (no save while a callback of an owning thread - teardown included - is running). "
         "Non-trivial = at least two pause/resume hook pairs and either a fault or a shutdown while paused; distinct = canonical JSON.")
 TRUSTED = B.TRUSTED_SYS
 ASSUMPTIONS = B.ASSUMPTIONS_SYS + ["components are the harness Agent / Environment / Trainer; attachment and load happen in launch() before any thread is started (launcher order), save is covered by C04"]
@@ -25,6 +25,10 @@ def gen_one(rng, seed):
         if rng.random() < 0.2:
             sp["faults"].append({"where": rng.choice(["savecond", "save"]), "k": rng.randint(1, 6)})
     sp["queue_size"] = rng.choice([1, 2, 5])
+    if sp.get("faults") and rng.random() < 0.5:
+        # a thread dies (its teardown takes a while) around the moment a save is requested: save must not overlap teardown
+        sp["teardown_dur"] = rng.choice([0.002, 0.01])
+        sp["save_at_ticks"] = sorted(set(sp.get("save_at_ticks", [])) | set(rng.sample(range(1, 12), 3)))
     return sp
 
 
